@@ -1121,8 +1121,10 @@ make_fflags_entry(struct archive_write *a, struct xml_writer *writer,
 			cp = p + strlen(p);
 
 		for (fe = flagentry; fe->name != NULL; fe++) {
-			if (fe->name[cp - p] != '\0'
-			    || p[0] != fe->name[0])
+			/* Same first character and same length (do not look
+			 * beyond the end of a shorter table name). */
+			if (p[0] != fe->name[0]
+			    || strlen(fe->name) != (size_t)(cp - p))
 				continue;
 			if (strncmp(p, fe->name, cp - p) == 0) {
 				avail[n++] = fe;
